@@ -1192,8 +1192,8 @@ Qed.
 
 Lemma events_mono : forall T evs b, open_mono b evs -> mono_from b (events_ops evs T).
 Proof.
-  induction evs as [|ev r IH]; intros b H; simpl in *; [exact I|].
-  rewrite events_ops_cons. destruct (c_open (ev_comment ev)) eqn:E.
+  induction evs as [|ev r IH]; intros b H; [exact I|].
+  rewrite events_ops_cons. simpl in H. destruct (c_open (ev_comment ev)) eqn:E.
   - destruct H as [Hb H]. eapply mono_ranges_at; [apply event_ops_shape_open; exact E | exact Hb | apply IH; exact H].
   - apply mono_sets; [apply event_ops_shape_closed; exact E | apply IH; exact H].
 Qed.
@@ -1242,12 +1242,12 @@ Proof.
   apply Forall_app. split; [apply event_ops_no_open_directive; assumption | assumption].
 Qed.
 
-Lemma standalone_event_ops : forall ic s e L E dis T,
+Lemma standalone_event_ops : forall s e L E (dis : bool) T,
   accepted_name E = true ->
   event_ops (mkE false s e (mkC L (Pytype [if dis then CDisable [E] else CEnable [E]]) true)) T =
   match T with TDis n => if (n =? E)%N then [ORange L dis] else [] | TIgn => [] end.
 Proof.
-  intros ic s e L E dis T Hacc. unfold event_ops. simpl. destruct T as [|n]; [destruct dis; reflexivity|].
+  intros s e L E dis T Hacc. unfold event_ops. simpl. destruct T as [|n]; [destruct dis; reflexivity|].
   destruct dis; simpl; unfold nodup_n; simpl; unfold names_ops; simpl;
     (destruct (n =? E)%N eqn:E1; [|reflexivity]); apply N.eqb_eq in E1; subst;
     unfold name_ops; rewrite Hacc; reflexivity.
@@ -1281,9 +1281,9 @@ Proof.
   destruct (build_ops _ _ _ _ Hb) as [Ho _].
   destruct (build_ops _ _ _ _ Hb') as [Ho' _].
   assert (HevL : forall T, event_ops evL T = match T with TDis n => if (n =? E)%N then [ORange L true] else [] | TIgn => [] end).
-  { intros T. apply (standalone_event_ops false sL eL L E true T Hacc). }
+  { intros T. apply (standalone_event_ops sL eL L E true T Hacc). }
   assert (HevM : forall T, event_ops evM T = match T with TDis n => if (n =? E)%N then [ORange M false] else [] | TIgn => [] end).
-  { intros T. apply (standalone_event_ops false sM eM M E false T Hacc). }
+  { intros T. apply (standalone_event_ops sM eM M E false T Hacc). }
   assert (Hall' : forall T, all_ops g (D1 ++ evL :: Dmid ++ evM :: D2) T =
             all_ops g D1 T ++ event_ops evL T ++ events_ops Dmid T ++ event_ops evM T ++ events_ops D2 T).
   { intros T. rewrite all_ops_app, events_ops_cons, events_ops_app, events_ops_cons. reflexivity. }
@@ -1291,10 +1291,10 @@ Proof.
   { intros T. rewrite all_ops_app, events_ops_app. reflexivity. }
   split.
   - intros T HT. specialize (Ho T). specialize (Ho' T). rewrite Hall in Ho. rewrite Hall', HevL, HevM in Ho'.
-    destruct T as [|n]; simpl in Ho'; [congruence|].
-    rewrite (target_neq _ _ HT) in Ho'. simpl in Ho'. congruence.
+    destruct T as [|n]; [cbn [app] in Ho'; congruence|].
+    rewrite (target_neq _ _ HT) in Ho'. cbn [app] in Ho'. congruence.
   - specialize (Ho (TDis E)). specialize (Ho' (TDis E)). specialize (Ho1 (TDis E)).
-    rewrite Hall in Ho. rewrite Hall', HevL, HevM, N.eqb_refl in Ho'. simpl in Ho'. simpl ls_of in *.
+    rewrite Hall in Ho. rewrite Hall', HevL, HevM, N.eqb_refl in Ho'. cbn [app] in Ho'. simpl ls_of in *.
     apply (ops_core_pair (all_ops g D1 (TDis E)) (events_ops Dmid (TDis E)) (events_ops D2 (TDis E)) L M
              (dis_get (d_dis st1) E)); auto.
     + pose proof (all_ops_mono g _ (TDis E) Hmono) as Hm. rewrite Hall', HevL, HevM, N.eqb_refl in Hm. exact Hm.
@@ -1319,15 +1319,15 @@ Proof.
   destruct (build_ops _ _ _ _ Hb) as [Ho _].
   destruct (build_ops _ _ _ _ Hb') as [Ho' _].
   assert (HevL : forall T, event_ops evL T = match T with TDis n => if (n =? E)%N then [ORange L true] else [] | TIgn => [] end).
-  { intros T. apply (standalone_event_ops false sL eL L E true T Hacc). }
+  { intros T. apply (standalone_event_ops sL eL L E true T Hacc). }
   assert (Hall' : forall T, all_ops g (D1 ++ evL :: D2) T = all_ops g D1 T ++ event_ops evL T ++ events_ops D2 T).
   { intros T. rewrite all_ops_app, events_ops_cons. reflexivity. }
   split.
   - intros T HT. specialize (Ho T). specialize (Ho' T). rewrite all_ops_app in Ho. rewrite Hall', HevL in Ho'.
-    destruct T as [|n]; simpl in Ho'; [congruence|].
-    rewrite (target_neq _ _ HT) in Ho'. simpl in Ho'. congruence.
+    destruct T as [|n]; [cbn [app] in Ho'; congruence|].
+    rewrite (target_neq _ _ HT) in Ho'. cbn [app] in Ho'. congruence.
   - specialize (Ho (TDis E)). specialize (Ho' (TDis E)).
-    rewrite all_ops_app in Ho. rewrite Hall', HevL, N.eqb_refl in Ho'. simpl in Ho'. simpl ls_of in *.
+    rewrite all_ops_app in Ho. rewrite Hall', HevL, N.eqb_refl in Ho'. cbn [app] in Ho'. simpl ls_of in *.
     apply (ops_core_eof (all_ops g D1 (TDis E)) (events_ops D2 (TDis E)) L); auto.
     + pose proof (all_ops_mono g _ (TDis E) Hmono) as Hm. rewrite Hall', HevL, N.eqb_refl in Hm. exact Hm.
     + intros l m H. rewrite sets_only_range in H; [discriminate|]. apply events_ops_no_open_directive. exact HD2.
@@ -1344,9 +1344,6 @@ Proof.
   destruct (c_line (ev_comment ev) <=? l); inversion H. reflexivity.
 Qed.
 
-Lemma ign_dict_true : forall g D st l v, build_events g [] D = Ok st -> True.
-Proof. auto. Qed.
-
 Lemma standalone_ignore_state : forall g fr D1 D2 L sL eL st st',
   let evL := mkE false sL eL (standalone_ignore L) in
   open_mono 0 (D1 ++ evL :: D2) ->
@@ -1362,16 +1359,261 @@ Proof.
   { intros T. rewrite all_ops_app, events_ops_cons. reflexivity. }
   split.
   - intros n. specialize (Ho (TDis n)). specialize (Ho' (TDis n)). rewrite all_ops_app in Ho.
-    rewrite Hall' in Ho'. simpl in Ho'. simpl in Ho. congruence.
+    rewrite Hall' in Ho'. change (event_ops evL (TDis n)) with (@nil lsop) in Ho'. cbn [app] in Ho'.
+    simpl ls_of in Ho, Ho'. congruence.
   - intros l. specialize (Ho TIgn). specialize (Ho' TIgn). rewrite all_ops_app in Ho. rewrite Hall' in Ho'.
-    simpl in Ho, Ho'.
+    change (event_ops evL TIgn) with [ORange L true] in Ho'. cbn [app] in Ho'. simpl ls_of in Ho, Ho'.
     rewrite (ops_core_eof (all_ops g D1 TIgn) (events_ops D2 TIgn) L (d_ignore st) (d_ignore st')); auto.
     + destruct (L <=? l); [|reflexivity].
       destruct (dict_get l (ls_lines (d_ignore st))) as [v|] eqn:Ed; [|reflexivity].
-      rewrite (run_ops_lines _ _ _ Ho l) in Ed. simpl in Ed.
-      destruct (last_set (events_ops D1 TIgn ++ events_ops D2 TIgn) l) as [w|] eqn:Ew; [|discriminate].
+      rewrite (run_ops_lines _ _ _ Ho l) in Ed. cbn [ls_empty ls_lines dict_get] in Ed.
+      destruct (last_set (all_ops g D1 TIgn ++ events_ops D2 TIgn) l) as [w|] eqn:Ew; [|discriminate].
       inversion Ed; subst. eapply sets_to_last; [|exact Ew].
-      apply sets_to_app; apply events_ops_ign_true.
+      apply sets_to_app; [|apply events_ops_ign_true].
+      unfold all_ops. apply sets_to_app; [constructor | apply events_ops_ign_true].
     + pose proof (all_ops_mono g _ TIgn Hmono) as Hm. rewrite Hall' in Hm. exact Hm.
     + apply ign_ranges_true.
+Qed.
+
+(* ------------------------------------------------------------------------------------------------ *)
+(* filter_error-level statements for stand-alone directives                                         *)
+
+Lemma standalone_pair_filter : forall g fr rl D1 Dmid D2 L M E sL eL sM eM st1 st st',
+  accepted_name E = true -> L < M ->
+  let evL := mkE false sL eL (standalone_disable L E) in
+  let evM := mkE false sM eM (standalone_enable M E) in
+  open_mono 0 (D1 ++ evL :: Dmid ++ evM :: D2) ->
+  Forall (fun ev => open_directive_of E (ev_comment ev) = false) Dmid ->
+  build_events g fr D1 = Ok st1 ->
+  Nat.odd (length (ls_trans (dis_get (d_dis st1) E))) = false ->
+  build_events g fr (D1 ++ Dmid ++ D2) = Ok st ->
+  build_events g fr (D1 ++ evL :: Dmid ++ evM :: D2) = Ok st' ->
+  forall e l0 lr, e_same_file e = true -> e_line e = Some l0 ->
+    reported_line st rl e l0 = Ok lr -> reported_line st' rl e l0 = Ok lr ->
+    ((e_name e <> E /\ E <> all_errors) \/ ~ (L <= eff_line lr < M) ->
+       filter_error st' rl e = filter_error st rl e) /\
+    ((e_name e = E \/ E = all_errors) -> L <= eff_line lr < M ->
+       dict_get (eff_line lr) (ls_lines (dis_get (d_dis st) E)) <> Some false ->
+       filter_error st' rl e = Ok (false, Some lr)).
+Proof.
+  intros g fr rl D1 Dmid D2 L M E sL eL sM eM st1 st st' Hacc HLM evL evM Hmono Hmid Hb1 Hoff Hb Hb'
+         e l0 lr Hsf Hl Hr Hr'.
+  destruct (standalone_pair_state g fr D1 Dmid D2 L M E sL eL sM eM st1 st st' Hacc HLM Hmono Hmid Hb1 Hoff Hb Hb')
+    as [Hother HE].
+  rewrite (filter_error_unfold _ _ _ _ _ Hsf Hl Hr), (filter_error_unfold _ _ _ _ _ Hsf Hl Hr').
+  assert (Hign : d_ignore st' = d_ignore st) by (apply (Hother TIgn); discriminate).
+  assert (Hn : forall n, n <> E -> dis_get (d_dis st') n = dis_get (d_dis st) n).
+  { intros n Hne. apply (Hother (TDis n)). intros H. inversion H. contradiction. }
+  set (l := eff_line lr) in *.
+  split.
+  - intros Hcase. rewrite Hign.
+    assert (Hc : forall n, n <> E \/ ~ (L <= l < M) ->
+              contains (dis_get (d_dis st') n) l = contains (dis_get (d_dis st) n) l).
+    { intros n [Hne|Hout]; [rewrite Hn; auto|].
+      destruct (N.eq_dec n E) as [->|Hne]; [|rewrite Hn; auto].
+      rewrite HE. destruct ((L <=? l) && (l <? M)) eqn:Eb; [|reflexivity].
+      apply andb_true_iff in Eb. destruct Eb as [E1 E2]. apply Z.leb_le in E1. apply Z.ltb_lt in E2. lia. }
+    rewrite (Hc all_errors), (Hc (e_name e)); [reflexivity | |]; destruct Hcase as [[H1 H2]|H]; auto.
+  - intros Hname Hin Hd.
+    assert (Hc : contains (dis_get (d_dis st') E) l = true).
+    { rewrite HE. replace ((L <=? l) && (l <? M)) with true.
+      - destruct (dict_get l (ls_lines (dis_get (d_dis st) E))) as [[|]|]; auto; congruence.
+      - symmetry. apply andb_true_iff. split; [apply Z.leb_le | apply Z.ltb_lt]; lia. }
+    destruct Hname as [Hname|Hname].
+    + rewrite Hname, Hc. rewrite andb_false_r. reflexivity.
+    + rewrite <- Hname, Hc. simpl. rewrite andb_false_r. reflexivity.
+Qed.
+
+Lemma standalone_eof_filter : forall g fr rl D1 D2 L E sL eL st st',
+  accepted_name E = true ->
+  let evL := mkE false sL eL (standalone_disable L E) in
+  open_mono 0 (D1 ++ evL :: D2) ->
+  Forall (fun ev => open_directive_of E (ev_comment ev) = false) D2 ->
+  build_events g fr (D1 ++ D2) = Ok st ->
+  build_events g fr (D1 ++ evL :: D2) = Ok st' ->
+  forall e l0 lr, e_same_file e = true -> e_line e = Some l0 ->
+    reported_line st rl e l0 = Ok lr -> reported_line st' rl e l0 = Ok lr ->
+    ((e_name e <> E /\ E <> all_errors) \/ eff_line lr < L ->
+       filter_error st' rl e = filter_error st rl e) /\
+    ((e_name e = E \/ E = all_errors) -> L <= eff_line lr ->
+       dict_get (eff_line lr) (ls_lines (dis_get (d_dis st) E)) <> Some false ->
+       filter_error st' rl e = Ok (false, Some lr)).
+Proof.
+  intros g fr rl D1 D2 L E sL eL st st' Hacc evL Hmono HD2 Hb Hb' e l0 lr Hsf Hl Hr Hr'.
+  destruct (standalone_eof_state g fr D1 D2 L E sL eL st st' Hacc Hmono HD2 Hb Hb') as [Hother HE].
+  rewrite (filter_error_unfold _ _ _ _ _ Hsf Hl Hr), (filter_error_unfold _ _ _ _ _ Hsf Hl Hr').
+  assert (Hign : d_ignore st' = d_ignore st) by (apply (Hother TIgn); discriminate).
+  assert (Hn : forall n, n <> E -> dis_get (d_dis st') n = dis_get (d_dis st) n).
+  { intros n Hne. apply (Hother (TDis n)). intros H. inversion H. contradiction. }
+  set (l := eff_line lr) in *.
+  split.
+  - intros Hcase. rewrite Hign.
+    assert (Hc : forall n, n <> E \/ l < L ->
+              contains (dis_get (d_dis st') n) l = contains (dis_get (d_dis st) n) l).
+    { intros n [Hne|Hout]; [rewrite Hn; auto|].
+      destruct (N.eq_dec n E) as [->|Hne]; [|rewrite Hn; auto].
+      rewrite HE. destruct (L <=? l) eqn:Eb; [|reflexivity]. apply Z.leb_le in Eb. lia. }
+    rewrite (Hc all_errors), (Hc (e_name e)); [reflexivity | |]; destruct Hcase as [[H1 H2]|H]; auto.
+  - intros Hname Hin Hd.
+    assert (Hc : contains (dis_get (d_dis st') E) l = true).
+    { rewrite HE. replace (L <=? l) with true.
+      - destruct (dict_get l (ls_lines (dis_get (d_dis st) E))) as [[|]|]; auto; congruence.
+      - symmetry. apply Z.leb_le. lia. }
+    destruct Hname as [Hname|Hname].
+    + rewrite Hname, Hc. rewrite andb_false_r. reflexivity.
+    + rewrite <- Hname, Hc. simpl. rewrite andb_false_r. reflexivity.
+Qed.
+
+Lemma standalone_ignore_filter : forall g fr rl D1 D2 L sL eL st st',
+  let evL := mkE false sL eL (standalone_ignore L) in
+  open_mono 0 (D1 ++ evL :: D2) ->
+  build_events g fr (D1 ++ D2) = Ok st ->
+  build_events g fr (D1 ++ evL :: D2) = Ok st' ->
+  forall e l0 lr, e_same_file e = true -> e_line e = Some l0 ->
+    reported_line st rl e l0 = Ok lr -> reported_line st' rl e l0 = Ok lr ->
+    (eff_line lr < L -> filter_error st' rl e = filter_error st rl e) /\
+    (L <= eff_line lr -> filter_error st' rl e = Ok (false, Some lr)).
+Proof.
+  intros g fr rl D1 D2 L sL eL st st' evL Hmono Hb Hb' e l0 lr Hsf Hl Hr Hr'.
+  destruct (standalone_ignore_state g fr D1 D2 L sL eL st st' Hmono Hb Hb') as [Hdis Hign].
+  rewrite (filter_error_unfold _ _ _ _ _ Hsf Hl Hr), (filter_error_unfold _ _ _ _ _ Hsf Hl Hr').
+  rewrite !Hdis, Hign. split; intros H.
+  - destruct (L <=? eff_line lr) eqn:Eb; [apply Z.leb_le in Eb; lia | reflexivity].
+  - replace (L <=? eff_line lr) with true; [reflexivity|]. symmetry. apply Z.leb_le. exact H.
+Qed.
+
+(* ------------------------------------------------------------------------------------------------ *)
+(* The full statement "changes nothing else": partial version and the refutations                   *)
+
+Lemma inserted_added_in : forall {A} (P : A -> Prop) D D' Ad, inserted P D D' Ad -> incl Ad D'.
+Proof.
+  induction 1 as [|y D D' Ad Hi IH|y D D' Ad Hy Hi IH]; intros z Hz; [inversion Hz | right; auto |].
+  destruct Hz as [<-|Hz]; [left; reflexivity | right; auto].
+Qed.
+
+Lemma inserted_added_P : forall {A} (P : A -> Prop) D D' Ad, inserted P D D' Ad -> Forall P Ad.
+Proof. induction 1; auto. Qed.
+
+Lemma exactly_partial_lemma : forall g fr rl D D' Ad L E st,
+  inserted (fun ev => ev_comment ev = trailing_disable L E /\
+                      (is_adjustable E = false \/ ev_start ev = L)) D D' Ad ->
+  (exists cev, In cev Ad /\ ev_call cev = false) ->
+  Forall (fun ev => trailing_enable_of E (ev_comment ev) = false) D' ->
+  accepted_name E = true -> E <> all_errors ->
+  build_events g fr D = Ok st ->
+  exists st', build_events g fr D' = Ok st' /\
+    forall e l0 lr, e_same_file e = true -> e_line e = Some l0 ->
+      reported_line st rl e l0 = Ok lr -> reported_line st' rl e l0 = Ok lr ->
+      (e_name e = E /\ eff_line lr = L -> filter_error st' rl e = Ok (false, Some lr)) /\
+      (~ (e_name e = E /\ eff_line lr = L) -> filter_error st' rl e = filter_error st rl e).
+Proof.
+  intros g fr rl D D' Ad L E st Hins [cev [HcevIn Hbase]] Hnoen Hacc HnotAll Hb.
+  assert (Hins0 : inserted (fun ev => ev_comment ev = trailing_disable L E) D D' Ad).
+  { eapply inserted_weaken; [|exact Hins]. simpl. tauto. }
+  destruct (trailing_disable_builds _ _ _ _ _ _ _ _ Hins0 Hb) as [st' Hb'].
+  exists st'. split; [exact Hb'|].
+  pose proof (inserted_added_P _ _ _ _ Hins) as HadP. rewrite Forall_forall in HadP.
+  assert (Htouched : forall l, In l (touched_disable E L Ad) -> l = L).
+  { intros l Hl. unfold touched_disable in Hl. apply in_flat_map in Hl. destruct Hl as (ev & HevIn & Hl).
+    destruct (HadP _ HevIn) as [_ Hsingle].
+    destruct (accepted_name E && keep (ev_call ev) E); [|inversion Hl].
+    assert (adjust_line L E (ev_start ev) = L).
+    { unfold adjust_line. destruct Hsingle as [Hna|Hs]; [rewrite Hna; reflexivity | rewrite Hs; destruct (is_adjustable E); reflexivity]. }
+    rewrite H in Hl. simpl in Hl. intuition. }
+  intros e l0 lr Hsf Hl Hr Hr'. split.
+  - intros [Hname HlL].
+    pose proof (inserted_added_in _ _ _ _ Hins cev HcevIn) as HcevD'.
+    destruct (in_split _ _ HcevD') as (D1 & D2 & HD').
+    rewrite HD' in Hb', Hnoen. apply Forall_app in Hnoen. destruct Hnoen as [_ Hnoen]. inversion Hnoen; subst.
+    destruct (HadP _ HcevIn) as [Hc _].
+    eapply silences_lemma with (cev := cev) (D1 := D1) (D2 := D2); eauto.
+    unfold keep. rewrite Hbase. reflexivity.
+  - intros Hnot. eapply disable_frame_lemma; eauto.
+    destruct (N.eq_dec (e_name e) E) as [Hn|Hn]; [|left; auto].
+    right. intros Hin. apply Htouched in Hin. tauto.
+Qed.
+
+(* refutation of the full statement: for every adjustable class E, a trailing disable=E on the last line
+   of a two-line statement also silences class E on the statement's first line *)
+Lemma exactly_refuted_lemma : forall E, is_adjustable E = true -> accepted_name E = true ->
+  let D := @nil event in
+  let D' := [mkE false 3 4 (trailing_disable 4 E)] in
+  let e2 := same_file_err 3 E false in
+  inserted (fun ev => ev_comment ev = trailing_disable 4 E /\ ev_start ev <= 4 <= ev_end ev) D D' D' /\
+  verdict_events [] [] [] D e2 = Ok (true, Some 3) /\
+  verdict_events [] [] [] D' e2 = Ok (false, Some 3).
+Proof.
+  intros E Hadj Hacc D D' e2. split; [|split].
+  - constructor; [|constructor]. simpl. split; [reflexivity | lia].
+  - unfold verdict_events. simpl.
+    rewrite (filter_error_unfold _ _ e2 3 3); try reflexivity.
+    apply plain_reported. unfold plain_error, e2. simpl. rewrite andb_false_r. reflexivity.
+  - unfold verdict_events.
+    assert (Hins : inserted (fun ev => ev_comment ev = trailing_disable 4 E) D D' D').
+    { constructor; [reflexivity | constructor]. }
+    destruct (trailing_disable_builds [] [] D D' D' 4 E _ Hins eq_refl) as [st' Hb']. rewrite Hb'. simpl.
+    apply (silences_lemma [] [] [] [] [] (mkE false 3 4 (trailing_disable 4 E)) st' e2 3 3 4 E); auto.
+    + apply plain_reported. unfold plain_error, e2. simpl. rewrite andb_false_r. reflexivity.
+    + right. unfold adjust_line. rewrite Hadj. reflexivity.
+Qed.
+
+Lemma disable_frame_full : forall g fr rl D D' Ad L E st,
+  inserted (fun ev => ev_comment ev = trailing_disable L E) D D' Ad ->
+  build_events g fr D = Ok st ->
+  exists st', build_events g fr D' = Ok st' /\
+    forall e l0 lr, e_same_file e = true -> e_line e = Some l0 ->
+      reported_line st rl e l0 = Ok lr -> reported_line st' rl e l0 = Ok lr ->
+      (e_name e <> E /\ E <> all_errors) \/ ~ In (eff_line lr) (touched_disable E L Ad) ->
+      filter_error st' rl e = filter_error st rl e.
+Proof.
+  intros g fr rl D D' Ad L E st Hins Hb.
+  destruct (trailing_disable_builds _ _ _ _ _ _ _ _ Hins Hb) as [st' Hb'].
+  exists st'. split; [exact Hb'|]. intros. eapply disable_frame_lemma; eauto.
+Qed.
+
+Lemma ignore_frame_full : forall g fr rl D D' Ad L st,
+  inserted (fun ev => ev_comment ev = trailing_ignore L) D D' Ad ->
+  build_events g fr D = Ok st ->
+  exists st', build_events g fr D' = Ok st' /\
+    forall e l0 lr, e_same_file e = true -> e_line e = Some l0 ->
+      reported_line st rl e l0 = Ok lr -> reported_line st' rl e l0 = Ok lr ->
+      ~ In (eff_line lr) (touched_ignore L Ad) ->
+      filter_error st' rl e = filter_error st rl e.
+Proof.
+  intros g fr rl D D' Ad L st Hins Hb.
+  destruct (trailing_ignore_builds _ _ _ _ _ _ _ Hins Hb) as [st' Hb'].
+  exists st'. split; [exact Hb'|]. intros. eapply ignore_frame_lemma; eauto.
+Qed.
+
+(* a class that is valid, adjustable, a function-call class and not the implicit-return class *)
+Definition witness_class : N :=
+  hd 0%N (filter (fun n => accepted_name n && is_fce n && negb (n =? implicit_return_error)%N && negb (n =? all_errors)%N)
+                 all_adjustable_errors).
+
+(* a trailing enable=E on a later line of the same statement undoes the disable on the statement's first line *)
+Lemma silences_refuted_lemma :
+  exists E D1 cev D2,
+    is_adjustable E = true /\ accepted_name E = true /\
+    ev_comment cev = trailing_disable 2 E /\ ev_call cev = false /\ ev_start cev <= 2 <= ev_end cev /\
+    verdict_events [] [] [] (D1 ++ cev :: D2) (same_file_err 2 E false) = Ok (true, Some 2).
+Proof.
+  exists witness_class, [], (mkE false 2 3 (trailing_disable 2 witness_class)),
+         [mkE false 2 3 (mkC 3 (Pytype [CEnable [witness_class]]) false)].
+  vm_compute. repeat split; try reflexivity; discriminate.
+Qed.
+
+(* the function-range adjustment moves an implicit-return error of another class to another line *)
+Lemma frame_line_refuted_lemma :
+  exists E L fr D D' Ad e l1 l2,
+    E <> all_errors /\ e_name e <> E /\
+    inserted (fun ev => ev_comment ev = trailing_disable L E /\ ev_start ev <= L <= ev_end ev) D D' Ad /\
+    verdict_events [] fr [] D e = Ok (true, Some l1) /\
+    verdict_events [] fr [] D' e = Ok (true, Some l2) /\ l1 <> l2.
+Proof.
+  exists witness_class, 4, [(2, 4)], [], [mkE false 3 4 (trailing_disable 4 witness_class)],
+         [mkE false 3 4 (trailing_disable 4 witness_class)],
+         (mkErr true (Some 3) implicit_return_error true), 4, 3.
+  split; [vm_compute; discriminate|]. split; [vm_compute; discriminate|].
+  split; [constructor; [split; [reflexivity | simpl; lia] | constructor]|].
+  split; [vm_compute; reflexivity|]. split; [vm_compute; reflexivity | discriminate].
 Qed.
